@@ -39,16 +39,16 @@ Print Assumptions C13_both.
 
 (* Non-vacuity: the violation of the selected node a is found on node b (through sh:node) and is
    reported when only a is selected - the defect fixed in /repo 43050c6. *)
-Definition N : shape := {| sid := IRI 101; spath := None; deact := false; ssev := t_Violation; stargets := no_targets;
+Definition N : shape := {| sid := IRI 101; spath := None; deact := false; ssev := t_Violation; smsgs := []; stargets := no_targets;
                            scomps := [CLeaf (LIn [])] |}.
-Definition P : shape := {| sid := BN 1; spath := Some (PPred 50); deact := false; ssev := t_Violation; stargets := no_targets;
+Definition P : shape := {| sid := BN 1; spath := Some (PPred 50); deact := false; ssev := t_Violation; smsgs := []; stargets := no_targets;
                            scomps := [CNode [IRI 101]] |}.
-Definition S : shape := {| sid := IRI 100; spath := None; deact := false; ssev := t_Violation;
+Definition S : shape := {| sid := IRI 100; spath := None; deact := false; ssev := t_Violation; smsgs := [];
    stargets := {| t_nodes := [IRI 1; IRI 2]; t_classes := []; t_implicit := false; t_subjects_of := []; t_objects_of := [] |};
    scomps := [CProperty [BN 1]] |}.
 Definition og := {| abort := false; allow_infos := false; allow_warnings := false; max_depth := 15; focus_filter := [IRI 1] |}.
 Example C13_nonvacuous :
   validate_impl0 og [] [(IRI 1, IRI 50, IRI 2)] [S; P; N]
-  = Ok (false, [VR (IRI 1) (Some (IRI 2)) (Some (IRI 50)) sh_NodeConstraintComponent (BN 1) t_Violation
-                   [VR (IRI 2) (Some (IRI 2)) None sh_InConstraintComponent (IRI 101) t_Violation []]]).
+  = Ok (false, [VR (IRI 1) (Some (IRI 2)) (Some (IRI 50)) sh_NodeConstraintComponent (BN 1) t_Violation []
+                   [VR (IRI 2) (Some (IRI 2)) None sh_InConstraintComponent (IRI 101) t_Violation [] []]]).
 Proof. vm_compute. reflexivity. Qed.
